@@ -86,7 +86,10 @@ static inline void section(int nested) {
 void sig_handler(void) {
   unsigned long c0 = READER_CTR(); int on0 = rcu_read_ongoing();
   section(0);
-  rt_assert(READER_CTR() == c0, "signal handler left the interrupted thread's reader word changed");
+  /* nesting count restored; inside an open section the whole word (incl. the phase snapshot the outer section relies on) is restored;
+   * with nesting 0 the stale phase bits carry no meaning and may differ */
+  rt_assert((READER_CTR() & URCU_GP_CTR_NEST_MASK) == (c0 & URCU_GP_CTR_NEST_MASK), "signal handler changed the interrupted thread's read-side nesting count");
+  if (c0 & URCU_GP_CTR_NEST_MASK) rt_assert(READER_CTR() == c0, "signal handler inside an open section changed the reader word (phase snapshot)");
   rt_assert(rcu_read_ongoing() == on0, "signal handler left rcu_read_ongoing() changed");
   rt_cover(c0 != 0 || on0, "handler interrupted an open read-side section");
   rt_cover(1, "signal handler ran");
